@@ -149,11 +149,46 @@ func (i *interpreter) mapOrderApplies(fr *frame) bool {
 	return false
 }
 
+// chooseOrderFor applies the harness's options (symx.MapOrderOpts): maps below
+// the minimum size keep insertion order; with sticky orders a map object keeps
+// the order drawn for it while its number of entries stays the same.
+func (ex *Exec) chooseOrderFor(m *omap, live []int) []int {
+	if ex.mapOrderMin > 0 && len(live) < ex.mapOrderMin {
+		return live
+	}
+	if !ex.mapOrderSticky {
+		return ex.chooseOrder(live)
+	}
+	if prev, ok := ex.mapOrders[m]; ok && len(prev) == len(live) {
+		same := map[int]bool{}
+		for _, p := range live {
+			same[p] = true
+		}
+		ok := true
+		for _, p := range prev {
+			ok = ok && same[p]
+		}
+		if ok {
+			return prev
+		}
+	}
+	o := ex.chooseOrder(live)
+	if ex.mapOrders == nil {
+		ex.mapOrders = map[*omap][]int{}
+	}
+	ex.mapOrders[m] = o
+	return o
+}
+
 // chooseOrder draws a permutation of positions through forking choices.
 // Up to 3 entries all orders are explored; above, identity, reversal and rotations.
 func (ex *Exec) chooseOrder(live []int) []int {
 	n := len(live)
-	if n <= 3 {
+	full := ex.mapOrderFull
+	if full == 0 {
+		full = 3
+	}
+	if n <= full {
 		rest := append([]int(nil), live...)
 		out := make([]int, 0, n)
 		for len(rest) > 1 {
